@@ -73,9 +73,6 @@ func (t *recTable) close() {
 		a.Shutdown()
 	}
 	for _, r := range t.routes {
-		if _, ok := r.(*route.GrafanaNet); ok {
-			continue // its Shutdown is C17's subject
-		}
 		r.Shutdown()
 	}
 }
@@ -584,12 +581,14 @@ func TestPropGrafanaNetRoute(t *testing.T) {
 		if err != nil {
 			t.Fatalf("TOML grafanaNet route refused: %v\n%s", err, sb.String())
 		}
+		defer a.close()
 		check("TOML\n"+sb.String(), a)
 		if gnCases > 1 { // (the first case may carry the 240 MB default buffer: build it once, not twice)
 			b, err := applyCmd(cmd)
 			if err != nil {
 				t.Fatalf("command %q refused: %v", cmd, err)
 			}
+			defer b.close()
 			check("command "+cmd, b)
 		}
 		rec.Case(cmd, len(opts) >= 3 && len(opts) < 11, fmt.Sprintf("nopts=%d", len(opts)))
